@@ -218,7 +218,7 @@ func FuzzNormalForm(f *testing.F) {
 var recDeep = ev.New("TestPropDeepDocuments", "well-formed documents nested 1-320 levels deep (nested groups and / or data inside an unknown field or plugin config; half of the depths within 6 of a round number), ending in every shorthand that normalisation rewrites: Parse returns no error or warning and both marshalled forms equal the normal-form model of the document; non-trivial = deeper than 40 levels; distinct by text")
 
 func TestPropDeepDocuments(t *testing.T) {
-	ev.Check(t, 300, 8000, func(t *rapid.T) {
+	ev.Check(t, 300, 3000, func(t *rapid.T) {
 		dd := doc.GenDeep(t)
 		meaning, err := gt.FromYAML(dd.Text)
 		if err != nil {
